@@ -424,6 +424,50 @@ def deep_copy(repo: Repo) -> RuleRun:
                     cl,
                     key=f"closure#{k}",
                 )
+    # the same hazard one level down: helper objects held by elements (interpolators) whose factory method RETURNS a closure that
+    # the constructor stores (self.function = self._get_function()). Reading configuration that never changes through `self` is
+    # harmless (the copy has the same value); reading state the class rebuilds later (assigned outside __init__) is not: the
+    # copy's function follows the ORIGINAL object's rebuilds
+    classes = sorted({f.cls for f in repo.all_functions() if f.cls is not None and elem not in repo.mro(f.cls)}, key=lambda c: c.qualname)
+    for cls in classes:
+        rebuilt = set()
+        for c_ in repo.mro(cls):
+            for m_ in c_.methods.values():
+                if m_.name == "__init__" or not m_.params:
+                    continue
+                for n_ in ast.walk(m_.node):
+                    if isinstance(n_, (ast.Assign, ast.AugAssign, ast.AnnAssign)):
+                        for t_ in n_.targets if isinstance(n_, ast.Assign) else [n_.target]:
+                            if isinstance(t_, ast.Attribute) and isinstance(t_.value, ast.Name) and t_.value.id == m_.params[0]:
+                                rebuilt.add(t_.attr)
+        for m in sorted(cls.methods.values(), key=lambda f: f.name):
+            if not m.params or m.is_staticmethod:
+                continue
+            selfname = m.params[0]
+            for k, ret in enumerate(n for n in ast.walk(m.node) if isinstance(n, ast.Return) and isinstance(n.value, ast.Lambda)):
+                lam = ret.value
+                reads = {x.attr for x in ast.walk(lam) if isinstance(x, ast.Attribute) and isinstance(x.value, ast.Name) and x.value.id == selfname}
+                if not reads:
+                    continue
+                # is the returned function kept in an instance?  self.<attr> = self.<m>()
+                kept = any(
+                    isinstance(a, ast.Assign) and isinstance(a.value, ast.Call) and isinstance(a.value.func, ast.Attribute) and a.value.func.attr == m.name and any(isinstance(t, ast.Attribute) for t in a.targets)
+                    for c_ in repo.mro(cls) + list(repo.subclasses(cls))
+                    for mm in c_.methods.values()
+                    for a in ast.walk(mm.node)
+                )
+                if not kept:
+                    continue
+                harmful = sorted((reads & rebuilt) | (reads & {"points", "position", "positions", "array"}))
+                r.check(
+                    not harmful,
+                    m,
+                    f"returned closure reads only fixed configuration through self ({sorted(reads)})",
+                    f"{m.qualname} returns a function that reads self.{harmful[0] if harmful else ''} and is kept in the instance: copy.deepcopy copies functions by reference, so in a copy of the object (a copied curve) the function "
+                    "still reads the ORIGINAL object's state - the copy evaluates the original's rebuilt spline after the original is transformed",
+                    lam,
+                    key=f"returned-closure#{k}",
+                )
     return r
 
 
